@@ -33,6 +33,10 @@ var Corpus = map[string][]string{
 		"a: &x {b: {<<: *x}, c: 1}\nd: *x\n",
 		"a: &x {<<: [*x]}\n",
 		"base: &b {k: 1, self: *b}\nuse: {<<: *b, own: 2}\nlist: [*b, *b]\n",
+		// strings that are expressions (eval), also ones that eval themselves
+		"a: \"eval(.a)\"\nb: \".c\"\nc: [1, 2]\nx: &x {k: 1}\n",
+		"a: \".. | eval(.a)\"\nb: \"eval(.b) , .\"\n",
+		"- \"eval(.[0])\"\n- \".[1]\"\n- \"load(.[2])\"\n",
 	},
 	"json": {
 		`{"a":1,"b":[1,2,3],"c":{"x":"y"},"d":null,"e":true,"f":1.5e10}`,
